@@ -1,6 +1,6 @@
 (* E4 Pipes, pull side -- the checker's [gen_ok] (used for combinators, adaptors and pipelines
    alike) is sound for the Prop-level clauses, and complete on the model's traces of the adaptors
-   whose full specification is proved (relays, flat_map_stream, flatten_stream). *)
+   (relays, stream_ready, flat_map_stream, flatten_stream, filter_map_async). *)
 From HV Require Import Pull.Model Pull.PCore Pull.PSpec Pull.Corr Pull.PSound Pull.PHolds
   Pull.ModelX Pull.PX Pull.CorrX.
 Set Implicit Arguments.
@@ -48,8 +48,26 @@ Proof.
   - eapply fms_fetch_fused; eauto.
 Qed.
 
+Lemma fma_fetch_fused {A B} (f : A -> nat * option B) : forall l o s', fused_b l = true ->
+  fma_fetch f l = (o, s') -> fused_b (snd s') = true.
+Proof.
+  induction l as [|[a| |] r IH]; simpl; intros o s' F E.
+  - inv E. reflexivity.
+  - destruct (f a) as [[|k] [b|]]; [inv E; auto|eapply IH; eauto|inv E; auto|inv E; auto].
+  - inv E. auto.
+  - inv E. apply dead_fused. exact F.
+Qed.
+
+Lemma fma_fin_closed {A B} uh (f : A -> nat * option B) : forall s o s', always s ->
+  fused_b (snd s) = true -> pull1 (fma_m uh f) s = (o, s') -> fused_b (snd s') = true.
+Proof.
+  intros [[[[|k] [b|]]|] l] o s' _ F E; simpl in *;
+    try (inv E; auto; fail); eapply fma_fetch_fused; eauto.
+Qed.
+
 Theorem xmodel_holds c n :
-  match c with XRelay _ | XFlatMapStream _ _ | XFlattenStream _ => True | _ => False end ->
+  match c with XRelay _ | XStreamReady _ | XFlatMapStream _ _ | XFlattenStream _
+           | XFilterMapAsync _ _ => True | _ => False end ->
   tr_items (xrun c n) <> None -> gen_ok (xref c) (xfused c) (xrun c n) = true.
 Proof.
   destruct c as [a|a|g a|a|f a|a|a|ac a|wh rd fn a]; intros OK NE; try contradiction;
@@ -57,6 +75,10 @@ Proof.
   - refine (@spec_gen_ok _ (src_m (sh a)) VN always (fun l => fused_b l = true)
               (fun l => items l) (@src_spec _ (sh a) (sh_truthful a))
               (@always_closed _ _) (@src_fin_closed _ (sh a)) n (s_scr a) false I _ NE).
+    discriminate.
+  - refine (@spec_gen_ok _ (sready_m (sh a)) VN always never (fun l => items_now l)
+              (@sready_spec _ (sh a) (sh_truthful a))
+              (@always_closed _ _) (@never_closed _ _ _) n (s_scr a) false I _ NE).
     discriminate.
   - refine (@spec_gen_ok _ (fms_m (ev_st g) exact_hint) VN always (fun st => fused_b (snd st) = true)
               (@fms_ref N N (ev_st g)) (@fms_spec N N (ev_st g) exact_hint (slack_truthful 0 (Some 0)))
@@ -67,5 +89,9 @@ Proof.
               (@fms_ref (script N) N (fun s => s))
               (@fms_spec (script N) N (fun s => s) exact_hint (slack_truthful 0 (Some 0)))
               (@always_closed _ _) (@fms_fin_closed _ _ (fun s : script N => s) exact_hint)
+              n (None, s_scr a) _ I (fun H => H) NE).
+  - refine (@spec_gen_ok _ (fma_m (sh a) (ev_fu f)) VN always (fun st => fused_b (snd st) = true)
+              (@fma_ref N N (ev_fu f)) (@fma_spec N N (sh a) (ev_fu f) (sh_truthful a))
+              (@always_closed _ _) (@fma_fin_closed _ _ (sh a) (ev_fu f))
               n (None, s_scr a) _ I (fun H => H) NE).
 Qed.
